@@ -266,4 +266,14 @@ theorem parseHeader_inv {bs rest : Bytes} {h : Header} {p : Bool} (hp : parseHea
           rw [e0, e1, ← hrest, ← hcs]
   · cases hp
 
+/-- `marshal` characterised: `marshal` succeeds EXACTLY on the headers the wire can carry — 7-bit payload type,
+at most 15 CSRCs, extension 32-bit aligned and at most 65535 words; everything else is an error. (The payload
+type and the extension length used to be masked / truncated silently; two `fix:` commits made them errors.) -/
+theorem marshalPacket_ok_iff (p : Packet) : (∃ bs, marshalPacket p = .ok bs) ↔ p.hdr.WF := by
+  rw [← validate_ok_iff]
+  unfold marshalPacket
+  cases hv : p.hdr.validate with
+  | error e => exact ⟨(fun ⟨_, h⟩ => by cases h), fun h => by cases h⟩
+  | ok u => exact ⟨fun _ => rfl, fun _ => ⟨_, rfl⟩⟩
+
 end RtcModel.C15
